@@ -23,6 +23,8 @@ func init() {
 }
 
 func runC16(c *eng.Ctx) {
+	c.Rule("R16.7", "K6")
+	ruleNewPartitionCopiesTheServerDefaults(c)
 	p := c.P
 	// (shared with C05) a failed append leaves nothing behind that a later conditional publish could land behind
 	c.Rule("R05.1", "K2")
